@@ -231,6 +231,9 @@ class C41(Prop):
         return all(_fr(case["low"][i]) <= _fr(c) <= _fr(case["high"][i]) for i, c in enumerate(p))
 
     def oracle(self, case, res):
+        from harness.core import has_nonfinite
+        if has_nonfinite(res):
+            return "a query inside the closed box returned a non-finite value (nan/inf)"
         d, cs = case["d"], case["cs"]
         pts = [[_fr(c) for c in p] for p in case["pts"]]
         if not all(self._inbox(case, p) for p in case["pts"]):
